@@ -10,7 +10,7 @@ PATCH="$(readlink -f "$1")"; shift
 S=$(mktemp -d /tmp/tryp-XXXXXX)
 trap 'rm -rf "$S"' EXIT
 mkdir "$S/repo" && (cd /repo && git archive HEAD | tar -x -C "$S/repo")
-( cd "$S/repo" && git init -q . && git apply --whitespace=nowarn "$PATCH" ) || { echo "PATCH does not apply"; exit 2; }
+( cd "$S/repo" && git init -q . && { git apply --whitespace=nowarn "$PATCH" 2>/dev/null || patch -p1 -s -F3 --no-backup-if-mismatch < "$PATCH"; } ) || { echo "PATCH does not apply"; exit 2; }
 ( cd "$S/repo" && go build ./... ) || { echo "PATCHED tree does not build"; exit 2; }
 if ! ( cd "$S/repo" && go test -vet=off -count=1 ./... >"$S/test.log" 2>&1 ); then echo "PATCHED tree FAILS the repo tests (invalid seeded change)"; grep -E "^(---|FAIL)" "$S/test.log" | head -5; exit 2; fi
 echo "patched tree builds and passes the repo suite"
